@@ -78,6 +78,12 @@ func drawGate(r *Rng, b gateBias) gateCfg {
 	for i := 0; i < max(c.Conc, 5)+1+r.Intn(3); i++ {
 		c.Ops = append(c.Ops, gateOp{Kind: "add", Prio: Pick(r, prios...)})
 	}
+	if c.QK.Adapter() && b.Tune && c.Conc >= 3 && r.Chance(50) {
+		// a dispatch burst is suspended inside the adapter with spare capacity under the old limit only,
+		// the limit is lowered meanwhile: the rest of the burst must honour the new limit
+		c.Ops = append(c.Ops, gateOp{Kind: "holddeq"}, gateOp{Kind: "release", Arg: 0}, gateOp{Kind: "release", Arg: 0},
+			gateOp{Kind: "tune", Arg: 1}, gateOp{Kind: "add", Prio: 0}, gateOp{Kind: "unhold"})
+	}
 	for i := 0; i < nops; i++ {
 		k := r.Intn(100)
 		switch {
